@@ -147,6 +147,12 @@ deriving Inhabited
 /-- a schedule: which generator of which validator is advanced next -/
 abbrev Schedule := List (Nat × Nat)
 
+/-- the steps of a schedule addressed to validator `a` -/
+def Schedule.only (a : Nat) (sched : Schedule) : Schedule := sched.filter (·.1 = a)
+
+/-- … as the sequence of generator numbers validator `a` is asked to advance -/
+def Schedule.proj (a : Nat) (sched : Schedule) : List Nat := (Schedule.only a sched).map (·.2)
+
 /-- one scheduled `next()`: writes slot `s.1` of the validator list and nothing else -/
 def System.step (env : Env) (impl : FmtImpl) (σ : System) (s : Nat × Nat) : Event × System :=
   match σ.vals[s.1]? with
@@ -172,5 +178,11 @@ def pullsOf (full : Out) (n : Nat) : List Event :=
   (full.errs.take n).map .error ++
     (if n ≤ full.errs.length then []
      else Event.ofStop full.stop :: List.replicate (n - full.errs.length - 1) .done)
+
+/-- the errors among a list of events: what `[e for e in it]` collects -/
+def errorsOf : List Event → List Err
+  | [] => []
+  | .error e :: rest => e :: errorsOf rest
+  | _ :: rest => errorsOf rest
 
 end JS
